@@ -31,13 +31,18 @@ def deep_update(d, u):
 class Case:
     """a prepared input directory; build() constructs the real Calculator"""
 
-    def __init__(self, example="akimotoite", settings=None, input01_text=None, elast_text=None):
+    def __init__(self, example="akimotoite", settings=None, input01_text=None, elast_text=None, omit=()):
         self.example = example
         self.dir = tempfile.mkdtemp(prefix="cijcase_")
         f1, f2 = EXAMPLES[example]
         src = example_dir(example)
         self.settings = deep_update(load_settings(example), settings)
         self.settings["qha"]["input"], self.settings["elast"]["input"] = "input01", "input02"
+        for path in omit:          # key paths the user's file does not spell out (the packaged defaults have to supply them)
+            node = self.settings
+            for key in path[:-1]:
+                node = node.get(key, {})
+            node.pop(path[-1], None)
         t1 = input01_text if input01_text is not None else open(os.path.join(src, f1)).read()
         t2 = elast_text if elast_text is not None else open(os.path.join(src, f2)).read()
         with open(os.path.join(self.dir, "input01"), "w") as fp:
@@ -158,13 +163,13 @@ def synthetic_texts(seed=0, nv=8, nq=3, na=2, system="orthorhombic", lattice=Tru
                     "table": table}
 
 
-def synthetic_case(seed=0, settings=None, **kw):
-    """a Case on a synthetic data set (settings of the akimotoite example re-targeted: small grids, lsq_poly)"""
+def synthetic_case(seed=0, settings=None, omit=(), **kw):
+    """a Case on a synthetic data set (settings of the akimotoite example re-targeted: small grids, lsq_poly); omit: key paths the user's file does NOT spell out"""
     system = kw.get("system", "orthorhombic")
     t1, t2, desc = synthetic_texts(seed, **kw)
     base = {"qha": {"settings": {"NT": 6, "DT": 300, "DT_SAMPLE": 300, "NTV": 21, "DELTA_P": 2.0, "DELTA_P_SAMPLE": 2.0, "T_MIN": 0, "P_MIN": 0, "order": 3, "volume_ratio": 1.2}},
             "elast": {"settings": {"mode_gamma": {"interpolator": "lsq_poly", "order": 3}, "symmetry": {"system": system}}}}
-    c = Case("akimotoite", deep_update(base, settings), input01_text=t1, elast_text=t2)
+    c = Case("akimotoite", deep_update(base, settings), input01_text=t1, elast_text=t2, omit=omit)
     c.description = desc
     return c
 
